@@ -673,7 +673,7 @@ def main(argv):
     ap.add_argument("--replay", default=None)
     a = ap.parse_args(argv)
     seed = int(os.environ.get("VERIF_SEED") or "1")
-    replay = a.replay
+    replay = os.path.abspath(a.replay) if a.replay else None
     replay_tie = None
     if replay:
         # a replay file is either our JSON or a raw ops file
